@@ -3,11 +3,29 @@
 package lnd
 
 import (
+	"context"
+
+	"github.com/elementsproject/peerswap/onchain"
 	"github.com/lightningnetwork/lnd/lnrpc"
 	"github.com/lightningnetwork/lnd/lnrpc/routerrpc"
+	"github.com/lightningnetwork/lnd/lnrpc/walletrpc"
 )
 
 // VerifBuildDirectClaimPaymentRequest exposes buildDirectClaimPaymentRequest to the verification harness.
 func VerifBuildDirectClaimPaymentRequest(payreq string, decoded *lnrpc.PayReq, channel *lnrpc.Channel, maxTotalCLTVDelta uint32) (*routerrpc.SendPaymentRequest, error) {
 	return buildDirectClaimPaymentRequest(payreq, decoded, channel, maxTotalCLTVDelta)
+}
+
+// VerifNewClient builds a Client (the LND wallet adapter) over in-process gRPC
+// client fakes instead of a grpc.ClientConn.
+func VerifNewClient(ctx context.Context, lndClient lnrpc.LightningClient, walletClient walletrpc.WalletKitClient,
+	routerClient routerrpc.RouterClient, chain *onchain.BitcoinOnChain) *Client {
+	return &Client{
+		lndClient:            lndClient,
+		walletClient:         walletClient,
+		routerClient:         routerClient,
+		bitcoinOnChain:       chain,
+		ctx:                  ctx,
+		invoiceSubscriptions: make(map[string]interface{}),
+	}
 }
